@@ -5,7 +5,7 @@
   reorders and duplicates requests and replies, late replies after restarts, crashes at
   section boundaries with term and vote persisted, arbitrary interleaving with all other
   sections of every node, abstracted by `OtherStep`). Static configuration `cfg` with at
-  least two members, which may contain non-voters.
+  least two voters, which may contain non-voters.
 -/
 import RaftVerif.Proofs.ElectionSafety
 set_option linter.unusedSimpArgs false
